@@ -86,6 +86,12 @@ type clk struct {
 	quiet    bool     // burst mode: only count, no channels, no bookkeeping
 	rollCh   chan int // seq of registrations made by a roll-over goroutine
 	ttlCh    chan int // seq of registrations made by an enqueuer
+	// gate on the roll-over goroutine's clock reading inside its critical section (taken under the
+	// queue mutex in ensureWindowIsUpdated): lets the harness hold the mutex-owning roll-over while
+	// another thread runs up to its Lock()
+	gateArmed   atomic.Bool
+	gateEntered chan struct{}
+	gateRelease chan struct{}
 	nRoll    atomic.Int64
 	nTTL     atomic.Int64
 	nExit    atomic.Int64
@@ -95,7 +101,8 @@ func newClk(t0 int64) *clk {
 	m := detclock.NewManual(t0)
 	m.Settle = func() {}
 	return &clk{Manual: m, regCh: make(chan int, 64), exits: make(chan struct{}, 64),
-		rollCh: make(chan int, 64), ttlCh: make(chan int, 64)}
+		rollCh: make(chan int, 64), ttlCh: make(chan int, 64),
+		gateEntered: make(chan struct{}, 1), gateRelease: make(chan struct{})}
 }
 
 func callerIsRollOver() bool {
@@ -172,6 +179,46 @@ func (c *clk) earliest(t int64) (reg, bool) {
 }
 
 func (c *clk) Sleep(d time.Duration) { <-c.After(d) }
+
+func (c *clk) Now() time.Time {
+	if c.gateArmed.Load() && callerIsRollOver() && c.gateArmed.CompareAndSwap(true, false) {
+		c.gateEntered <- struct{}{}
+		<-c.gateRelease
+	}
+	return c.Manual.Now()
+}
+func (c *clk) Since(t time.Time) time.Duration { return c.Now().Sub(t) }
+func (c *clk) Until(t time.Time) time.Duration { return t.Sub(c.Now()) }
+
+// enqueuersWaitingForMutex counts goroutines inside DelayedPriorityQueue.Enqueue that are blocked
+// acquiring the queue mutex.
+func enqueuersWaitingForMutex() int {
+	buf := make([]byte, 1<<16)
+	for {
+		n := runtime.Stack(buf, true)
+		if n < len(buf) {
+			buf = buf[:n]
+			break
+		}
+		buf = make([]byte, 2*len(buf))
+	}
+	cnt := 0
+	for _, blk := range bytes.Split(buf, []byte("\n\n")) {
+		nl := bytes.IndexByte(blk, '\n')
+		if nl < 0 {
+			continue
+		}
+		head := blk[:nl]
+		if !bytes.HasPrefix(head, []byte("goroutine ")) ||
+			!(bytes.Contains(head, []byte("Lock")) || bytes.Contains(head, []byte("semacquire"))) {
+			continue
+		}
+		if bytes.Contains(blk[nl:], []byte("(*DelayedPriorityQueue).Enqueue(")) {
+			cnt++
+		}
+	}
+	return cnt
+}
 
 func (c *clk) sortRegs() {
 	sort.SliceStable(c.regs, func(i, j int) bool {
